@@ -75,6 +75,7 @@ fn user_rows(d: usize, p: PosPattern) -> Vec<Row> {
         with_pos(Row::new(&format!("{}{}", a, b), 1, 1, -500, P_NOUN).splits("C", "U0/U1", "U0/U1").structure("U0/U1")), // U2
         with_pos(Row::new(&format!("{}東", a), 1, 1, -500, P_NOUN).splits("C", &format!("{},{},エー{}/東,名詞,普通名詞,一般,*,*,*,ヒガシ", a, pos.join(","), d), "U0/0")), // U3
         with_pos(Row::new("共", 1, 1, 5000 + d as i32, P_NOUN).reading(&format!("キョウ{}", d))),        // U4: homograph in every dictionary
+        with_pos(Row::new(&format!("{}京", a), 1, 1, -500, P_NOUN).splits("C", "*", "U0/1")),               // U5: B units only
     ]
 }
 
@@ -196,7 +197,7 @@ fn check_layers(env: &Env, l: &Layers, o: &mut Outcome) {
                             3 => vec![u(0), WordId::new(0, 0)],
                             _ => vec![],
                         };
-                        let exp_b = exp_a.clone();
+                        let exp_b = if i == 5 { vec![u(0), WordId::new(0, 1)] } else { exp_a.clone() };
                         if fields[4] != format!("{:?}", exp_a) || fields[5] != format!("{:?}", exp_b) {
                             f.push(Failure::new("split-reference-differs", format!("{}: word ({}, {}) {:?} has A/B units {} / {}, declared {:?}", ctx, d, i, row.surface, fields[4], fields[5], exp_a)));
                         }
@@ -208,8 +209,30 @@ fn check_layers(env: &Env, l: &Layers, o: &mut Outcome) {
         for (idx, p) in l.dicts.iter().enumerate() {
             let d = idx + 1;
             let rows = user_rows(d, *p);
-            for i in [0usize, 2, 3] {
+            for i in [0usize, 2, 3, 5] {
                 let text = rows[i].surface.clone();
+                // the part of speech is the declared one also when only surface and POS are loaded
+                match analyze_list(&dict, Mode::C, Some(sudachi::dic::subset::InfoSubset::SURFACE | sudachi::dic::subset::InfoSubset::POS_ID), &text) {
+                    Err(e) => f.push(Failure::new("analysis-error", format!("{}: analysing {:?} with fields surface+POS: {:?}", ctx, text, e))),
+                    Ok(l) => {
+                        let t = toks_of(&l);
+                        if t.len() != 1 || t[0].dic_id != d as i32 || t[0].pos != rows[i].pos.to_vec() {
+                            f.push(Failure::new("part-of-speech-differs", format!("{}: {:?} analysed with only surface and POS loaded reports {:?}, expected dictionary {} POS {:?}", ctx, text, t.iter().map(|x| (x.dic_id, x.pos.clone())).collect::<Vec<_>>(), d, rows[i].pos)));
+                        }
+                    }
+                }
+                if i == 5 {
+                    match analyze(&dict, Mode::B, &text) {
+                        Err(e) => f.push(Failure::new("analysis-error", format!("{}: analysing {:?} in mode B: {:?}", ctx, text, e))),
+                        Ok(t) => {
+                            let exp: Vec<(i32, u32)> = vec![(d as i32, WordId::new(d as u8, 0).as_raw()), (0, 1)];
+                            let got: Vec<(i32, u32)> = t.iter().map(|x| (x.dic_id, x.word_id)).collect();
+                            if got != exp {
+                                f.push(Failure::new("split-units-differ", format!("{}: {:?} in mode B gives (dictionary, word) {:?}, declared {:?}", ctx, text, got, exp)));
+                            }
+                        }
+                    }
+                }
                 match analyze(&dict, Mode::C, &text) {
                     Err(e) => f.push(Failure::new("analysis-error", format!("{}: analysing {:?}: {:?}", ctx, text, e))),
                     Ok(t) => {
@@ -218,7 +241,7 @@ fn check_layers(env: &Env, l: &Layers, o: &mut Outcome) {
                         }
                     }
                 }
-                if i >= 2 {
+                if i == 2 || i == 3 {
                     match analyze(&dict, Mode::A, &text) {
                         Err(e) => f.push(Failure::new("analysis-error", format!("{}: analysing {:?} in mode A: {:?}", ctx, text, e))),
                         Ok(t) => {
